@@ -90,3 +90,10 @@ Theorem C10_proper_prefixes_are_rejected_by_a_real_error : forall v p, wfb v = t
   (exists e, parse_jsonb p = Err e /\ e <> EFuel) /\ from_slice p = Err EOther.
 Proof. exact prefix_rejected_not_fuel. Qed.
 Print Assumptions C10_proper_prefixes_are_rejected_by_a_real_error.
+
+(* the same for the text fallback and hence for from_slice as a whole: on no input is the model's fuel the reason for
+   the answer (every value consumes a byte, every escape consumes a byte) *)
+Theorem C10_from_slice_fuel_is_never_decisive :
+  (forall bs, parse_value bs <> Err EFuel) /\ (forall bs, from_slice bs <> Err EFuel).
+Proof. split; [exact parse_value_not_fuel|exact from_slice_not_fuel]. Qed.
+Print Assumptions C10_from_slice_fuel_is_never_decisive.
